@@ -4,7 +4,9 @@
   `Mid` models the analysis as it is in the tree (flags on nodes, visited-rule cut, early returns);
   `Mid.Spec.leftRec` is the independent Ford-style static definition (throw-free fragment).
   The general theorem `detect = Spec.leftRec` is NOT proved (and is false for the unchanged
-  analysis: findings D17, D9, D18); what is kernel-checked here are the repaired defects' witnesses
+  analysis: findings D17, D9, D18). ONE DIRECTION is: `C07_no_false_rejection_partial` - without recovery operators the
+  analysis never reports a left recursion the specification does not see ("a grammar with no such cycle is accepted").
+  Also kernel-checked here are the repaired defects' witnesses
   (before: accepted / falsely rejected; now: decided like the specification) and structural facts.
   The correspondence stream compares the real analysis with `Mid` node by node and with the
   specification on generated and enumerated grammars.
@@ -20,6 +22,7 @@ import PigeonVerif.Proofs.MidLemmas
 import PigeonVerif.Proofs.WFTerm
 import PigeonVerif.Proofs.Bridge
 import PigeonVerif.Properties.C06
+import PigeonVerif.Proofs.NoFalseReject
 
 namespace PV
 namespace Mid
@@ -64,6 +67,42 @@ theorem C07_D17_accepted_although_left_recursive :
 /-- with the (uncommitted) repair "visit every alternative" the witness is decided correctly -/
 theorem C07_D17_repair_would_reject :
     verdictOf { cfgNow with choiceVisitAll := true } gD17 ["A", "B"] = some (.ok true) := by decide
+
+/-- **C07, acceptance clause ("a grammar with no such cycle is accepted"), every grammar without recovery operators.**
+    For every grammar with distinct rule names, freshly parsed (all `Nullable` flags at Go's zero value) and without `//{…}`
+    operators, every order in which `ComputeNullables` visits the rules, and the analysis as it is in the tree: if
+    `PrepareGrammar` answers anything but "no left recursion" - left recursion found, or a component without a leader -
+    then the independent specification agrees: some rule can reach itself at the same input position (`Spec.leftRec`).
+    Contrapositive: a grammar with no such cycle is accepted. Proof (`Proofs/NoFalseReject.lean`): the flags
+    `NullableVisit` leaves on the nodes err in one direction only (a rule on the visiting stack, `e+`, the alternatives
+    after the first nullable one count as non-nullable), so a flag that says "nullable" is right (`visit_sound`, an
+    invariant of the whole stateful traversal incl. the visited-rule cut and the re-visits); `InitialNames` continues past
+    an item only on such a flag, hence the first graph is a subgraph of the specification's (`names_sub_calls`,
+    `edge_sub`); a reported component is a cycle of it (`computeLRWith_closed_form`, `lr_vertex_cycle`).
+    `_partial`: recovery operators are excluded - there the analysis over-approximates (findings D18 / D9; witness below).
+    The OTHER direction (a cycle of the specification is reported) is false for the tree: finding D17 (witness above). -/
+theorem C07_no_false_rejection_partial (G0 : AGrammar) (order : List String) (hnd : (G0.map (·.name)).Nodup)
+    (hfresh : ∀ r ∈ G0, erase r.expr = r.expr) (hnr : ∀ r ∈ G0, noRec r.expr = true)
+    (G' : AGrammar) (v : Verdict) (h : prepare cfgNow G0 order = some (G', v)) (hv : v ≠ .ok false) :
+    Spec.leftRec G0 = true :=
+  no_false_rejection_fresh G0 order hnd hfresh hnr G' v h hv
+
+/-- the hypotheses are met by an ordinary left-recursive grammar (`E <- E "+" T / T; T <- "n"`), which the analysis reports -/
+def gLR : AGrammar := [
+  { name := "E", expr := .choice false [.seq false [.ref false "E", .lit false, .ref false "T"], .ref false "T"] },
+  { name := "T", expr := .lit false }]
+example : (gLR.map (·.name)).Nodup ∧ verdictOf cfgNow gLR ["E", "T"] = some (.ok true) := by decide
+example : ∀ r ∈ gLR, erase r.expr = r.expr ∧ noRec r.expr = true := by
+  intro r hr
+  simp only [gLR, List.mem_cons, List.not_mem_nil, or_false] at hr
+  rcases hr with rfl | rfl <;> exact ⟨rfl, rfl⟩
+
+/-- why recovery operators are excluded (finding D18): `A <- ("x" //{l} "") A / "y"` has no same-position cycle - the
+    guarded `"x"` consumes - but the recovery expression `""` makes the analysis flag the operator nullable: rejected -/
+def gD18 : AGrammar := [
+  { name := "A", expr := .choice false [.seq false [.recovery false (.lit false) (.lit true), .ref false "A"], .lit false] }]
+theorem C07_D18_false_rejection_through_recovery :
+    verdictOf cfgNow gD18 ["A"] = some (.ok true) ∧ Spec.leftRec gD18 = false := by decide
 
 /-- direct left recursion is detected whatever follows: for `A <- A e / f` the rule's initial names
     contain `A` (a self-loop in the first graph), for every `e`, `f`, every flag assignment and
